@@ -1601,6 +1601,8 @@ impl Node {
             self
         });
         rc.created_in.add_node(rc.clone());
+        #[cfg(cormacrelf_incremental_rs_verif)]
+        rc.verif_register_self();
         rc
     }
 
@@ -1657,6 +1659,23 @@ impl Node {
             return None;
         }
         Some(&self._kind)
+    }
+
+    #[cfg(cormacrelf_incremental_rs_verif)]
+    pub(crate) fn verif_kind(&self) -> Option<&Kind> {
+        self.kind()
+    }
+
+    #[cfg(cormacrelf_incremental_rs_verif)]
+    pub(crate) fn verif_children(&self) -> Vec<NodeRef> {
+        let mut v = Vec::new();
+        self.foreach_child(&mut |_ix, child| v.push(child));
+        v
+    }
+
+    #[cfg(cormacrelf_incremental_rs_verif)]
+    pub(crate) fn verif_child_at(&self, index: i32) -> Option<NodeRef> {
+        self.verif_children().into_iter().nth(index as usize)
     }
 
     fn maybe_change_value(
